@@ -238,6 +238,8 @@ class Exec:
     # -------------------------------------------------------------- lifting
     def lift(self, v):
         """python/SV value -> (z3 term, kind)"""
+        if isinstance(v, SSeq) and v.elem == "any":
+            return v.t, "seq_any"
         if isinstance(v, SV):
             return v.t, v.kind
         if isinstance(v, bool):
@@ -283,8 +285,10 @@ class Exec:
         raise Unsupported(f"str term of {v!r}")
 
     def is_concrete(self, v):
-        if isinstance(v, (SV, HObj, HList, HDict, HJoin, HSpecList, ExcVal, FuncRef, BoundMethod, ClassRef)):
+        if isinstance(v, (SV, HObj, HList, HDict, HJoin, HSpecList, HSet, HListView, SLazy, PyCallable, ExcVal, FuncRef, BoundMethod, ClassRef)):
             return False
+        if type(v).__module__.startswith("pyvc."):
+            return False   # any other engine-level value
         if isinstance(v, Tagged):
             return False
         if isinstance(v, tuple):
@@ -303,6 +307,8 @@ class Exec:
             return v.t != 0
         if isinstance(v, SSeq):
             return z3.Length(v.t) > 0
+        if isinstance(v, HListView):
+            return z3.Length(v.seq) > 0
         if isinstance(v, HList):
             if v.items is not None:
                 return len(v.items) > 0
@@ -850,21 +856,26 @@ class Exec:
             new = self.havoc_value(name, cur, types.get(name))
             frame.store(name, new)
         for n in attr_writes:
+            if n.attr in self.contract.mutable_fields:
+                kind = self.contract.obj_fields[n.attr]
+                self.fresh_n += 1
+                self.heap_fields[n.attr] = z3.Const(f"heap.{n.attr}!{self.fresh_n}", z3.ArraySort(ObjSort, ELEM_SORT[kind]))
+                continue
             try:
                 obj = self.eval(n.value, frame)
-            except (Signal, KeyError):
+            except (Signal, KeyError, Unsupported):
                 continue
             if isinstance(obj, HObj) and n.attr in obj.fields:
                 obj.fields[n.attr] = self.havoc_value(f"{n.attr}", obj.fields[n.attr], types.get(n.attr))
         for recv in mut_calls:
             if isinstance(recv, ast.Name) and frame.has(recv.id):
                 cur = frame.lookup(recv.id)
-                if isinstance(cur, (HJoin, HList, HDict, HSpecList)):
+                if isinstance(cur, (HJoin, HList, HDict, HSpecList, HSet)):
                     self.havoc_heap(recv.id, cur, types.get(recv.id))
             elif isinstance(recv, ast.Attribute):
                 try:
                     obj = self.eval(recv, frame)
-                except (Signal, KeyError):
+                except (Signal, KeyError, Unsupported):
                     continue
                 if isinstance(obj, (HJoin, HList, HDict, HSpecList)):
                     self.havoc_heap(recv.attr, obj, types.get(recv.attr))
@@ -874,6 +885,14 @@ class Exec:
             obj.fields[fname] = self.havoc_value(fname, obj.fields[fname], types.get(fname))
 
     def havoc_heap(self, name, obj, ty):
+        if isinstance(obj, HSet):
+            kind = obj.kind or ty or "any"
+            obj.kind = kind
+            obj.has = z3.Const(f"{name}.has!{self.fresh_n}", z3.ArraySort(ELEM_SORT[kind], BoolSort))
+            self.fresh_n += 1
+            obj.count = self.fresh(f"{name}.count", "int").t
+            self.assume(obj.count >= 0)
+            return
         if isinstance(obj, HSpecList):
             for k, v in list(obj.state.items()):
                 if isinstance(v, z3.ExprRef) and z3.is_int(v) and k not in ("n", "lo"):
@@ -900,7 +919,7 @@ class Exec:
     def havoc_value(self, name, cur, ty=None):
         if ty is not None:
             return ty.fresh(self, name)
-        if isinstance(cur, (HJoin, HList, HDict, HSpecList)):
+        if isinstance(cur, (HJoin, HList, HDict, HSpecList, HSet)):
             return cur  # heap content havocked through mutator scan
         if isinstance(cur, HObj):
             return cur
@@ -1077,7 +1096,10 @@ class Exec:
             raise Unsupported(f"expression {type(node).__name__} at line {getattr(node, 'lineno', '?')}")
         if target_hint is not None and isinstance(node, (ast.List, ast.ListComp)):
             return m(node, frame, target_hint=target_hint)
-        return m(node, frame)
+        v = m(node, frame)
+        if isinstance(v, SLazy):
+            v = self.resolve_lazy(v)   # lazily typed values are never observed unresolved
+        return v
 
     def ex_Constant(self, node, frame):
         v = node.value
@@ -1121,6 +1143,8 @@ class Exec:
             return frame.lookup(name)
         except KeyError:
             pass
+        if self.pure and name in getattr(self, "ghost_params", {}):
+            return self.ghost_params[name]
         am = self.contract._alias_map or {}
         if self.pure and (name in am or (name.startswith("pre_") and name[4:] in am)):
             real = am[name] if name in am else "pre_" + am[name[4:]]
@@ -1678,6 +1702,8 @@ class Exec:
     def as_symbolic_seq(self, v) -> Optional[SSeq]:
         if isinstance(v, SSeq):
             return v
+        if isinstance(v, HListView):
+            return SSeq(v.seq, "any")
         if isinstance(v, HList) and v.sym is not None:
             return v.sym
         if isinstance(v, SStr):
@@ -1732,8 +1758,11 @@ class Exec:
             self.trace_event("call", mname, tuple(args[1:] if self_val is not None else args))
             self.used_intrinsics.add(f"dynamic dispatch {mname}(): opaque call (any subclass), result unconstrained; recorded in the ghost call trace")
             rt = self.contract.opaque_methods[mname]
+            if isinstance(rt, tuple) and rt[0] == "cm":
+                rt = rt[1]
             if callable(rt) and not hasattr(rt, "fresh"):
-                return rt(self, self_val if self_val is not None else (args[0] if args else None), mname, list(args[1:] if self_val is not None else args))
+                extra = {"kwargs": kwargs} if getattr(rt, "wants_kwargs", False) else {}
+                return rt(self, self_val if self_val is not None else (args[0] if args else None), mname, list(args[1:] if self_val is not None else args), **extra)
             return rt.fresh(self, f"{mname}_result") if rt is not None else None
         # decorators
         decos = [] if isinstance(fref.node, ast.Lambda) else fref.node.decorator_list
@@ -1891,6 +1920,7 @@ class Exec:
                     return memo[id(v)]
                 n = HDict(concrete={k: cp(x) for k, x in v.concrete.items()} if v.concrete is not None else None,
                           ksort=v.ksort, vkind=v.vkind, has=v.has, val=v.val, order=v.order)
+                n.list_default = getattr(v, "list_default", False)
                 n.orig = getattr(v, "orig", v)
                 memo[id(v)] = n
                 return n
